@@ -6,6 +6,7 @@ import (
 	"path/filepath"
 	"sort"
 	"strings"
+	"verifsim/simdisk"
 
 	"verifsim/ref"
 )
@@ -360,7 +361,16 @@ func par2Cycle(r *Run, o cycleOpts) {
 	gr := []int{1, 2, 3, 4, 7, 16, 64, 0}[t.Draw(8, "g-repair")]
 	dc := t.Bool(1, 2, "doublecheck")
 	needWork := !w.AllIntact()
-	rep := r.Repair2(w, index, gr, dc, nil, r.drawSched(1, 6))
+	var repPlan []simdisk.Fault
+	if prop == "C02" && needWork && t.Bool(1, 4, "repair-write-fault") {
+		// one of Repair's writes fails (disk full, torn): the write
+		// discipline is stated "whether Repair succeeds or fails" - what is
+		// written before and after the failure stays original and listed
+		kind := []simdisk.Kind{simdisk.WriteENOSPC, simdisk.WriteTorn, simdisk.WriteTruncErr}[t.Draw(3, "fault-kind")]
+		repPlan = []simdisk.Fault{{NthWrite: 1 + t.Draw(3, "fault-write"), Kind: kind, KeepPermille: t.Draw(1001, "keep"), ErrStyle: t.Draw(5, "error-style")}}
+		r.Probe("repair-with-write-fault")
+	}
+	rep := r.Repair2(w, index, gr, dc, repPlan, r.drawSched(1, 6))
 	r.noPanic(rep)
 	outcome := "repaired"
 	if rep.Err != nil {
